@@ -14,7 +14,7 @@ import Pog.Model.ConvSer
     decls  = [[className, {"fields": [{"n": pyName, "t": ty, "d": "req"|"none"|"list"|"dict"},…],
                            "load": null | [[jsonKey, pyName],…], "dump": null | [[pyName, jsonKey],…]}],…]
     val    = null | true/false | <integer> | "str" | [val,…] | {"dict": [[k, val],…]}
-           | {"inst": className, "f": [[pyName, val],…]} | {"bytes": s} | {"dt": s} | {"date": s}
+           | {"inst": className, "f": [[pyName, val],…]} | {"bytes": s} | {"dt": s} | {"date": s} | {"time": s} | {"uuid": s}
            | {"enum": className, "v": json} | {"opaque": kind, "v": s}
     err    = {"grouped": bool, "msgs": [[path, kind],…]}        kind = tag of `EKind` (`keyError:<k>`, `discFailed:<V>`)
 
@@ -27,6 +27,7 @@ import Pog.Model.ConvSer
     serialize       [decls, heap, hval, reg]     → {"ok": pv, "reg": […]} | {"uerr": kind}   (`MODEL:fuel` = RecursionError)
 
     hval   = null | true/false | <integer> | "str" | {"ref": id} | {"bytes": s} | {"bytearray": s} | {"dt": s} | {"date": s}
+           | {"time": s} | {"uuid": s}
            | {"enum": className, "v": json} | {"opaque": kind, "v": s}
     heap   = [[id, {"list": [hval,…]} | {"dict": [[k, hval],…]} | {"inst": className, "f": [[pyName, hval],…]}],…]
     pv     = json | {"leak": id} | {"opaque": kind, "v": s}      (inside arrays / {"o": …} objects)
@@ -129,6 +130,10 @@ private partial def getVal (j : Lean.Json) : Except String Val :=
       (← x.getArr?).toList.mapM (fun p => do
         let q ← p.getArr?
         pure ((← getStr (← argN q 0)), (← getVal (← argN q 1))))
+    match j.getObjVal? "time", j.getObjVal? "uuid" with
+    | .ok s, _ => do pure (.time (← getStr s))
+    | _, .ok s => do pure (.uuid (← getStr s))
+    | _, _ =>
     match j.getObjVal? "dict", j.getObjVal? "inst", j.getObjVal? "bytes", j.getObjVal? "dt", j.getObjVal? "date",
         j.getObjVal? "enum", j.getObjVal? "opaque" with
     | .ok d, _, _, _, _, _, _ => do pure (.dict (← kvs d))
@@ -151,6 +156,8 @@ private partial def putVal (v : Val) : Lean.Json :=
   | .bytes s => Lean.Json.mkObj [("bytes", jstr s)]
   | .datetime s => Lean.Json.mkObj [("dt", jstr s)]
   | .date s => Lean.Json.mkObj [("date", jstr s)]
+  | .time s => Lean.Json.mkObj [("time", jstr s)]
+  | .uuid s => Lean.Json.mkObj [("uuid", jstr s)]
   | .enum c m => Lean.Json.mkObj [("enum", jstr c), ("v", putJV m)]
   | .opaque k s => Lean.Json.mkObj [("opaque", jstr k), ("v", jstr s)]
   | .list xs => Lean.Json.arr (xs.map putVal).toArray
@@ -169,6 +176,7 @@ private def ekindTag : EKind → String
   | .b64 => "b64"
   | .isoformat => "isoformat"
   | .notTemporal => "notTemporal"
+  | .uuidForm => "uuidForm"
   | .enumInvalid => "enumInvalid"
   | .unsupported => "unsupported"
   | .unionNone => "unionNone"
@@ -211,6 +219,10 @@ private def getHVal (j : Lean.Json) : Except String HVal :=
   | .num _ => do pure (.int (← j.getInt?))
   | .arr _ => throw "bad hval"
   | .obj _ =>
+    match j.getObjVal? "time", j.getObjVal? "uuid" with
+    | .ok s, _ => do pure (.time (← getStr s))
+    | _, .ok s => do pure (.uuid (← getStr s))
+    | _, _ =>
     match j.getObjVal? "ref", j.getObjVal? "bytes", j.getObjVal? "bytearray", j.getObjVal? "dt", j.getObjVal? "date",
         j.getObjVal? "enum", j.getObjVal? "opaque" with
     | .ok i, _, _, _, _, _, _ => do pure (.ref (← i.getNat?))
